@@ -116,6 +116,11 @@ V("c02f-sizes-by-unpacking", "C02", "silent",
 V("c04f-division-inside-nonzero-branch", "C04", "silent",
   (PHAF, "        if scale_factor == 0.0:\n            scale_factor = 1.0\n        matrix = matrix_reduced / scale_factor\n",
    "        if scale_factor != 0.0:\n            matrix = matrix_reduced / scale_factor\n        else:\n            matrix = matrix_reduced\n            scale_factor = 1.0\n", 2))
+MFOCK = "piquasso/_math/fock.py"
+V("c16b-insert-sorted-modes-unsorted-counts", "C16", {"rule": "C16b", "contains": "get_postselected_fock_basis"},
+  (MFOCK, "    full_basis = np.zeros((len(active_basis), d), dtype=int)\n\n    active_modes = np.delete(np.arange(d), postselected_modes)\n\n    full_basis[:, active_modes] = active_basis\n    full_basis[:, postselected_modes] = np.asarray(\n        postselected_photons,\n        dtype=int,\n    )\n\n    return full_basis\n", "    positions = np.sort(postselected_modes) - np.arange(len(postselected_modes))\n\n    return np.insert(active_basis.astype(int), positions, np.asarray(postselected_photons, dtype=int), axis=1)\n"))
+V("c16b-insert-jointly-sorted", "C16", "silent",
+  (MFOCK, "    full_basis = np.zeros((len(active_basis), d), dtype=int)\n\n    active_modes = np.delete(np.arange(d), postselected_modes)\n\n    full_basis[:, active_modes] = active_basis\n    full_basis[:, postselected_modes] = np.asarray(\n        postselected_photons,\n        dtype=int,\n    )\n\n    return full_basis\n", "    order = np.argsort(postselected_modes)\n    positions = np.asarray(postselected_modes)[order] - np.arange(len(postselected_modes))\n\n    return np.insert(active_basis.astype(int), positions, np.asarray(postselected_photons, dtype=int)[order], axis=1)\n"))
 # ------------------------------------------------------------------------------------------- C20
 V("c20-sub-add", "C20", {"rule": "C20c", "contains": "Sub"}, (EXPR, "ast.Sub: op.sub", "ast.Sub: op.add"))
 V("c20-lt-le", "C20", {"rule": "C20c", "contains": "Lt"}, (EXPR, "ast.Lt: op.lt", "ast.Lt: op.le"))
